@@ -172,7 +172,12 @@ def r2_scoped_id(c, facts):
     for b, t in upd:
         sl = MF.slice_back(ni, t['args'][1]['l'], nidx) if len(t['args']) > 1 and 'l' in t['args'][1] else {'calls': []}
         names = [n for n, _, _ in sl['calls']]
-        if any(n.endswith('::last') or 'last' == n.split('::')[-1] for n in names) or any('map_or' in n for n in names):
+        shorts = {P.strip(n).split('::')[-1] for n in names}
+        innermost = 'last' in shorts or 'next_back' in shorts or 'last_mut' in shorts or ('rev' in shorts and 'next' in shorts)
+        if innermost and not (shorts & {'first', 'first_mut', 'get', 'nth'}):
+            scoped_upd = (b, t)
+        elif shorts & {'first', 'first_mut', 'get', 'nth', 'next', 'find_map', 'find'} and any('scopes' in MF.field_path(d['rv'].get('place') or d['rv'].get('op') or {'proj': []}) for l in sl['locals'] for k, bi, d in nidx.get(l, []) if k == 'assign'):
+            c.bad(R, 'node_identifier:scope-id-not-innermost:%s' % ','.join(sorted(shorts & {'first', 'first_mut', 'get', 'nth', 'next', 'find_map', 'find'})), 'node_identifier hashes the id of a scope that is not the innermost one (%s): two applications of a function containing `rec`, made inside one application of another function, share one component name' % sorted(shorts & {'first', 'first_mut', 'get', 'nth', 'next', 'find_map', 'find'}))
             scoped_upd = (b, t)
     digest = P.call_blocks(ni, 'NodeRef::digest')
     if scoped_upd is None:
